@@ -270,9 +270,16 @@ func constructors() []subject {
 	return out
 }
 
+func maxSize(r *engine.Rec) int {
+	if r.Tier == "thorough" {
+		return 8
+	}
+	return 4
+}
+
 func constructorAliasing(r *engine.Rec) {
 	for _, sub := range constructors() {
-		for n := 0; n <= 4; n++ {
+		for n := 0; n <= maxSize(r); n++ {
 			for pos := 0; pos < n || pos == 0; pos++ {
 				c := aCase{sub.name, n, pos, "mutate-argument-after-call"}
 				if !r.Wanted(c) {
@@ -428,7 +435,7 @@ func accessors() []accessor {
 
 func resultAliasing(r *engine.Rec) {
 	for _, acc := range accessors() {
-		for n := 0; n <= 4; n++ {
+		for n := 0; n <= maxSize(r); n++ {
 			for pos := 0; pos < n || pos == 0; pos++ {
 				for _, mode := range []string{"mutate-result", "mutate-collection"} {
 					c := aCase{acc.name, n, pos, mode}
@@ -578,7 +585,7 @@ func selfOperands(r *engine.Rec) {
 		return fmt.Sprint(c.GetSize()), o
 	}})
 	for _, op := range ops {
-		for n := 0; n <= 4; n++ {
+		for n := 0; n <= maxSize(r); n++ {
 			c := aCase{op.name, n, 0, "self-operand"}
 			if !r.Wanted(c) {
 				continue
